@@ -372,7 +372,8 @@ func b2Join(ss []string) string { return strings.Join(ss, ", ") }
 // program, in the functions the enclosing helper was inlined into.
 func b2Bindings(fv *ssa.FreeVar) []ssa.Value {
 	fn := fv.Parent()
-	if fn == nil || fn.Pkg == nil {
+	pkg := b2FuncPkg(fn) // a bound-method wrapper x.m carries no package of its own: that of m
+	if fn == nil || pkg == nil {
 		return nil
 	}
 	idx := -1
@@ -382,7 +383,7 @@ func b2Bindings(fv *ssa.FreeVar) []ssa.Value {
 		}
 	}
 	var out []ssa.Value
-	for _, g := range b2AllPkgFuncs(fn.Prog, fn.Pkg) {
+	for _, g := range b2AllPkgFuncs(fn.Prog, pkg) {
 		for _, b := range g.Blocks {
 			for _, in := range b.Instrs {
 				if mc, ok := in.(*ssa.MakeClosure); ok && mc.Fn == fn && idx >= 0 && idx < len(mc.Bindings) {
@@ -419,7 +420,9 @@ func b2AllPkgFuncs(prog *ssa.Program, sp *ssa.Package) []*ssa.Function {
 
 // b2PkgFuncs is Prog.PkgFuncs plus the closures that visible functions create
 // although their lexical parent is hidden (on an inlined variant the closures of
-// an inlined helper are created by its callers and stay part of the program).
+// an inlined helper are created by its callers and stay part of the program),
+// and the bound method values x.m into whose wrapper a variant has inlined m
+// (the wrapper then is m's body over the captured receiver: a closure like any other).
 func b2PkgFuncs(p *core.Prog, rel string) []*ssa.Function {
 	out := p.PkgFuncs(rel)
 	seen := map[*ssa.Function]bool{}
@@ -430,7 +433,7 @@ func b2PkgFuncs(p *core.Prog, rel string) []*ssa.Function {
 		for _, b := range out[i].Blocks {
 			for _, in := range b.Instrs {
 				if mc, ok := in.(*ssa.MakeClosure); ok {
-					if g, ok := mc.Fn.(*ssa.Function); ok && !seen[g] && g.Blocks != nil && g.Synthetic == "" {
+					if g, ok := mc.Fn.(*ssa.Function); ok && !seen[g] && g.Blocks != nil && (g.Synthetic == "" || b2InlinedBound(g)) {
 						seen[g] = true
 						out = append(out, g)
 					}
@@ -484,7 +487,76 @@ func b2StaticCallers(p *core.Prog, fn *ssa.Function) (sites []ssa.CallInstructio
 func b2Origins(p *core.Prog, v ssa.Value) []ssa.Value {
 	var out []ssa.Value
 	seen := map[ssa.Value]bool{}
+	type fieldOf struct {
+		s     ssa.Value
+		field int
+	}
+	seenField := map[fieldOf]bool{}
 	var walk func(v ssa.Value, depth int)
+	// walkField: field `field` of the struct value s; orig (the load that asked) stands
+	// for itself when s cannot be traced to where it was built.
+	var walkField func(s ssa.Value, field int, orig ssa.Value, depth int) bool
+	walkFieldOfAlloc := func(al *ssa.Alloc, field int, orig ssa.Value, depth int) bool {
+		val, whole := b2FieldStoreOfAlloc(al, field)
+		switch {
+		case val != nil:
+			walk(val, depth+1)
+			return true
+		case whole != nil:
+			return walkField(whole, field, orig, depth+1)
+		}
+		return false
+	}
+	walkField = func(s ssa.Value, field int, orig ssa.Value, depth int) bool {
+		s = core.Strip(s)
+		if depth > 8 {
+			return false
+		}
+		if seenField[fieldOf{s, field}] {
+			return true
+		}
+		seenField[fieldOf{s, field}] = true
+		switch y := s.(type) {
+		case *ssa.UnOp:
+			if al, ok := y.X.(*ssa.Alloc); ok && y.Op == token.MUL {
+				return walkFieldOfAlloc(al, field, orig, depth)
+			}
+		case *ssa.Parameter:
+			fn := y.Parent()
+			idx := -1
+			for i, q := range fn.Params {
+				if q == y {
+					idx = i
+				}
+			}
+			if srcs, closed := b2ParamSources(p, fn, idx); closed && len(srcs) > 0 {
+				// every source must resolve, otherwise the field stands for itself
+				save := len(out)
+				for _, src := range srcs {
+					if !walkField(src, field, orig, depth+1) {
+						out = out[:save]
+						return false
+					}
+				}
+				return true
+			}
+		case *ssa.FreeVar:
+			if _, isPtr := y.Type().Underlying().(*types.Pointer); isPtr {
+				return false
+			}
+			if bs := b2Bindings(y); len(bs) > 0 {
+				save := len(out)
+				for _, b := range bs {
+					if !walkField(b, field, orig, depth+1) {
+						out = out[:save]
+						return false
+					}
+				}
+				return true
+			}
+		}
+		return false
+	}
 	walk = func(v ssa.Value, depth int) {
 		v = core.Strip(core.Forward(core.Strip(v)))
 		if seen[v] {
@@ -496,8 +568,20 @@ func b2Origins(p *core.Prog, v ssa.Value) []ssa.Value {
 			return
 		}
 		switch x := v.(type) {
+		case *ssa.Field:
+			// x.f of a struct value (by-value receiver, by-value capture)
+			if walkField(x.X, x.Field, v, depth) {
+				return
+			}
 		case *ssa.UnOp:
 			if x.Op == token.MUL {
+				if fa, ok := x.X.(*ssa.FieldAddr); ok {
+					// a load of a field of a local struct: what was stored into that field
+					// where the struct was built
+					if al, ok := fa.X.(*ssa.Alloc); ok && walkFieldOfAlloc(al, fa.Field, v, depth) {
+						return
+					}
+				}
 				if roots, ok := b2AddrRoots(x.X); ok {
 					all := true
 					var vals []ssa.Value
@@ -532,24 +616,22 @@ func b2Origins(p *core.Prog, v ssa.Value) []ssa.Value {
 			}
 		case *ssa.Parameter:
 			fn := x.Parent()
-			if sites, closed := b2StaticCallers(p, fn); closed {
-				if len(sites) == 0 {
+			idx := -1
+			for i, q := range fn.Params {
+				if q == x {
+					idx = i
+				}
+			}
+			// (a method used as a method value x.m is not dead: its receiver is what was
+			// bound there, its other parameters come from callers that are not visible)
+			if srcs, closed := b2ParamSources(p, fn, idx); closed {
+				if len(srcs) == 0 {
 					return // dead helper (inlined everywhere): its parameters stand for nothing
 				}
-				idx := -1
-				for i, q := range fn.Params {
-					if q == x {
-						idx = i
-					}
+				for _, src := range srcs {
+					walk(src, depth+1)
 				}
-				if idx >= 0 {
-					for _, c := range sites {
-						if a := core.Args(c); idx < len(a) {
-							walk(a[idx], depth+1)
-						}
-					}
-					return
-				}
+				return
 			}
 		}
 		out = append(out, v)
